@@ -106,3 +106,57 @@ func vpH_C12_T_terms() {
 		vpAssert("C12.reset-on-term", s.e.IsLeader() && s.cb.demotes == 1)
 	}
 }
+
+// vpH_C12_T_terms_inflight: as vpH_C12_T_terms, but a health check may still be in flight (the checker is a
+// scheduling point) when the first term is ended from outside by Stop, placed by the explorer.
+func vpH_C12_T_terms_inflight() {
+	thr := 2
+	hc := &vpHealth{yieldInCheck: true}
+	tm := vpTiming{time.Second, 3 * time.Second}
+	s := vpLeadingInstance(tm, 0, func(cfg *ElectionConfig) {
+		cfg.HealthChecker = hc
+		cfg.MaxConsecutiveFailures = thr
+	})
+	s.st.ttl = 0
+	stopped := make(chan struct{}, 1)
+	go func() {
+		vpYieldLazyOps("api.stop", tm.H+tm.H/2)
+		_ = s.e.Stop()
+		stopped <- struct{}{}
+	}()
+	<-stopped
+	time.Sleep(200 * time.Millisecond) // the check that was in flight has answered by now
+	vpQuiesce()
+	s.st.write("env:cleanup", "delete", nil, true, 0)
+	for len(s.demoted) > 0 {
+		<-s.demoted
+	}
+	d0 := s.cb.demotes
+	_ = s.e.Start(vpRootCtx())
+	vpQuiesce()
+	if !s.e.IsLeader() {
+		vpEndPath("not-reelected")
+	}
+	vpCover("C12.second-term-inflight")
+	base := len(hc.verdicts)
+	select {
+	case <-s.demoted:
+	case <-time.After(time.Duration(thr+1)*tm.H + tm.H/2):
+	}
+	run, at := 0, -1
+	for i := base; i < len(hc.verdicts); i++ {
+		if hc.verdicts[i] {
+			run = 0
+		} else {
+			run++
+			if run >= thr && at < 0 {
+				at = i
+			}
+		}
+	}
+	if at >= 0 {
+		vpAssert("C12.exactly-at-n", !s.e.IsLeader() && len(hc.verdicts) == at+1)
+	} else {
+		vpAssert("C12.reset-on-term", s.e.IsLeader() && s.cb.demotes == d0)
+	}
+}
